@@ -5,6 +5,8 @@ import sys, os, subprocess, tempfile, shutil, glob, concurrent.futures as cf
 HERE = os.path.dirname(os.path.dirname(os.path.abspath(__file__)))
 sys.path.insert(0, os.path.join(HERE, "selftest"))
 import run as st
+sys.path.insert(0, os.path.join(HERE, "tools"))
+RENAME = "--rename" in sys.argv
 PROPS = "C01 C02 C03 C04 C05 C06 C07 C08 C09 C10 C11 C12 C13 C14 C16 C17 C18 C19 C20".split()
 
 
@@ -16,6 +18,14 @@ def one(patch):
     r = subprocess.run(["patch", "-p1", "-s", "-i", patch], cwd=tmp, capture_output=True, text=True)
     if r.returncode != 0:
       return patch, [("PATCH", 3, r.stdout[-300:] + r.stderr[-300:])]
+    if RENAME:
+      # additionally rename every local of every library function (tools/rename_fuzz.py): refactoring + renaming together
+      import rename_fuzz as rf
+      for root, _, fs in os.walk(os.path.join(tmp, "paranoid_crypto", "lib")):
+        for f in fs:
+          if f.endswith(".py") and not f.endswith("_test.py") and "/data" not in root:
+            rel = os.path.relpath(os.path.join(root, f), tmp)
+            rf.rename_file(os.path.join(tmp, rel), None, {q for (ff, q) in rf.SKIP_FUNCS if rel.endswith(ff)})
     env = dict(os.environ, PCSTATIC_EVIDENCE_DIR=os.path.join(tmp, "_ev"))
     for p in PROPS:
       r = subprocess.run(["/venv/bin/python", os.path.join(HERE, "check.py"), p, "--repo", tmp], capture_output=True, text=True, env=env)
